@@ -399,13 +399,15 @@ class MeshTri1(MeshSimplex, Mesh2D):
             points = np.zeros((3, 0), dtype=np.float64)
             wedges = np.zeros((6, 0), dtype=np.int32)
             diff = 0
-            for i, p in enumerate(np.sort(other.p[0])):
+            # one layer of wedges for each element of the line mesh
+            levels, iscell = other._intervals()
+            for i, p in enumerate(levels):
                 points = np.hstack((
                     points,
                     np.vstack((self.p,
                                np.array(self.p.shape[1] * [p])))
                 ))
-                if i == len(other.p[0]) - 1:
+                if not iscell[i]:
                     pass
                 else:
                     wedges = np.hstack((
